@@ -27,6 +27,7 @@ type Frame struct {
 	results  []Val // at a return: current result values (for ensures)
 	parent   *Frame
 	label    string // prefix of obligation kinds for inlined frames
+	freeCells map[string]*Cell // captured variables of a closure verified on its own
 }
 
 type retEdge struct {
